@@ -114,6 +114,9 @@ pub proof fn lemma_fdiv_pm1(k: nat)
     lemma_mul_mod_noop_general(q as int, (b * finv(b)) as int, P as int);
     assert(q < P) by { lemma_pow2_pos(k); assert(q * b >= q) by(nonlinear_arith) requires b >= 1; }
     lemma_small_mod(q, P);
+    let k = (b * finv(b)) % P;
+    assert(k == 1);
+    assert(q * k == q) by(nonlinear_arith) requires k == 1;
     assert((q * ((b * finv(b)) % P)) % P == q % P);
 }
 
